@@ -39,16 +39,25 @@ def run_variant(v, repo=None):
     prop, name, file, edits, expect = v["prop"], v["name"], v["file"], v["edits"], v["expect"]
     d = make_scratch(repo)
     try:
+        if v.get("patch"):
+            pp = subprocess.run(["patch", "-p1", "-s", "--no-backup-if-mismatch", "-i", v["patch"]],
+                                cwd=d, capture_output=True, text=True)
+            if pp.returncode != 0:
+                return (v, "BROKEN-VARIANT", "patch does not apply: " + (pp.stdout + pp.stderr)[-200:])
+            file, edits = "", []
         path = os.path.join(d, file)
-        with open(path) as f:
-            src = f.read()
+        src = ""
+        if file:
+            with open(path) as f:
+                src = f.read()
         for old, new in edits:
             if src.count(old) != 1:
                 return (v, "BROKEN-VARIANT",
                         f"pattern occurs {src.count(old)} times: {old[:60]!r}")
             src = src.replace(old, new)
-        with open(path, "w") as f:
-            f.write(src)
+        if file:
+            with open(path, "w") as f:
+                f.write(src)
         if file.endswith(".py"):
             try:
                 compile(src, path, "exec")
